@@ -1423,6 +1423,8 @@ func (c *Client) sendSingleMsg(client *smtp.Client, message *Msg) error {
 		}
 		if resetSendErr := client.Reset(); resetSendErr != nil {
 			retError.errlist = append(retError.errlist, resetSendErr)
+			// the transaction is still open on the server, the connection must not be reused
+			_ = client.Close()
 		}
 		return retError
 	}
@@ -1446,16 +1448,25 @@ func (c *Client) sendSingleMsg(client *smtp.Client, message *Msg) error {
 	if hasError {
 		if resetSendErr := client.Reset(); resetSendErr != nil {
 			rcptSendErr.errlist = append(rcptSendErr.errlist, resetSendErr)
+			// the transaction is still open on the server, the connection must not be reused
+			_ = client.Close()
 		}
 		return rcptSendErr
 	}
 	writer, err := client.Data()
 	if err != nil {
-		return &SendError{
+		retError := &SendError{
 			Reason: ErrSMTPData, errlist: []error{err}, isTemp: isTempError(err),
 			affectedMsg: message, errcode: errorCode(err),
 			enhancedStatusCode: enhancedStatusCode(err, escSupport),
 		}
+		// a refused DATA command leaves the mail transaction open on the server
+		if resetSendErr := client.Reset(); resetSendErr != nil {
+			retError.errlist = append(retError.errlist, resetSendErr)
+			// the transaction is still open on the server, the connection must not be reused
+			_ = client.Close()
+		}
+		return retError
 	}
 	_, err = message.WriteTo(writer)
 	if err != nil {
